@@ -77,9 +77,7 @@ static void build_particle_space(const std::string& tier, const std::string& fam
             {{ELEM, 0}, {WILD, W_ANY * 3 + PC_LAX}}};
         if (T) {
             pairs.push_back({{WILD, W_TNS * 3 + PC_SKIP}, {WILD, W_OTHER * 3 + PC_SKIP}});
-            pairs.push_back({{WILD, W_ANY * 3 + PC_SKIP}, {ELEM, 0}});
             pairs.push_back({{ELEM, 0}, {WILD, W_TNS * 3 + PC_STRICT}});
-            pairs.push_back({{WILD, W_TNS * 3 + PC_LAX}, {ELEM, 0}});
             pairs.push_back({{WILD, W_OTHER * 3 + PC_STRICT}, {WILD, W_TNS * 3 + PC_LAX}});
             pairs.push_back({{WILD, W_OTHER * 3 + PC_LAX}, {WILD, W_OTHER * 3 + PC_STRICT}});
         }
@@ -107,7 +105,7 @@ static void build_particle_space(const std::string& tier, const std::string& fam
             {{ELEM, 0}, {ELEM, 1}, {WILD, W_ANY * 3 + PC_LAX}}};
         for (Kind c : COMP) for (Occ o1 : CORE) for (auto& tr : triples) for (Occ o2 : CORE) for (Occ o3 : CORE) for (Occ o4 : CORE)
             PSPACE.push_back(Particle::group(c, o1, {leafp(tr[0], o2), leafp(tr[1], o3), leafp(tr[2], o4)}));
-        for (Kind c : COMP) for (Kind c2 : COMP) for (Occ o1 : CORE) for (Occ og : CORE) for (auto& tr : triples) for (Occ o2 : MINI) for (Occ o3 : MINI) for (Occ o4 : MINI) {
+        for (Kind c : COMP) for (Kind c2 : COMP) for (Occ o1 : CORE) for (Occ og : REP3) for (auto& tr : triples) for (Occ o2 : MINI) for (Occ o3 : MINI) for (Occ o4 : MINI) {
             PSPACE.push_back(Particle::group(c, o1, {Particle::group(c2, og, {leafp(tr[0], o2), leafp(tr[1], o3)}), leafp(tr[2], o4)}));
             PSPACE.push_back(Particle::group(c, o1, {leafp(tr[0], o2), Particle::group(c2, og, {leafp(tr[1], o3), leafp(tr[2], o4)})}));
         }
